@@ -928,8 +928,10 @@ class BaseModel(ModelInterface):
                 empty_df_like_ests = pd.DataFrame(
                     [], index=ix, columns=estimations.columns
                 )
+                # a requested (ID, TIME) pair may be repeated: keep one estimated row per pair so that
+                # the join returns exactly one row per requested row (same value for the same pair)
                 estimations = empty_df_like_ests[[]].join(
-                    estimations, on=["ID", "TIME"]
+                    estimations[~estimations.index.duplicated()], on=["ID", "TIME"]
                 )
 
         return estimations
